@@ -60,6 +60,37 @@ Example C07_node_premises_satisfiable :
 Proof. exact ex_c07_premises. Qed.
 Print Assumptions C07_node_premises_satisfiable.
 
+(* ---------------------------------------------------------------------------------------------------------------------------------- *)
+(* WITH additional_starts / additional_ends (NodeErrST.v): node paths may start at a node of S and end at a node of T
+   (node_pathsST = DilworthNode.nwalk per index); node_err_instST attaches the global source to v.0 for v in S and v.1 to the global sink
+   for v in T.  The cost notion is unchanged.  S = T = [] gives back the statements above (C07_node_paths_without_starts_ends). *)
+From FP Require Import NodeFlowST NodeErrST.
+
+Theorem C07_node_klae_optimal_with_starts_ends : forall (V : list node) (E : list PathEnc.edge) (S T : list node) (s t : node) (topo : list node)
+    (fq sc : node -> Q) (ign : list node) (isint : bool) (k : nat),
+  ~ In s (expV V) -> ~ In t (expV V) -> s <> t -> (forall e, In e E -> In (fst e) V /\ In (snd e) V) -> NoDup V -> NoDup E ->
+  (forall u v, In (u, v) E -> (posn topo u < posn topo v)%nat) -> incl V topo ->
+  forall a : var -> Q, node_domain V fq sc ign isint k ->
+  let I := node_err_instST V E S T s t fq sc ign isint k in
+  sat a (encode_klae I) -> (forall b, sat b (encode_klae I) -> (objective a (encode_klae I) <= objective b (encode_klae I))%Q) ->
+  (exists Pn w, node_pathsST V E S T k Pn /\ node_adm isint k w /\ (node_klae_cost V fq sc ign k Pn w == objective a (encode_klae I))%Q) /\
+  (forall Pn w, node_pathsST V E S T k Pn -> node_adm isint k w -> (objective a (encode_klae I) <= node_klae_cost V fq sc ign k Pn w)%Q).
+Proof. exact node_klae_optimalST. Qed.
+Print Assumptions C07_node_klae_optimal_with_starts_ends.
+
+Theorem C07_node_paths_without_starts_ends : forall V E k Pn, node_pathsST V E [] [] k Pn <-> node_paths V E k Pn.
+Proof. exact node_paths_nil_iff. Qed.
+Print Assumptions C07_node_paths_without_starts_ends.
+
+(* non-vacuity: path 1 -> 2 with node weights 3, 5, k = 2: without additional starts every choice costs >= 2; with node 2 as additional
+   start the paths 1-2 (weight 3) and 2 (weight 2) have cost 0 *)
+Example C07_node_additional_start_lowers_the_optimum :
+  node_domain exV exfq exsc [] false 2 /\
+  (forall Pn w, node_pathsST exV exE [] [] 2 Pn -> (2 <= node_klae_cost exV exfq exsc [] 2 Pn w)%Q) /\
+  node_pathsST exV exE [2%N] [] 2 exPn2 /\ node_adm false 2 exw2 /\ (node_klae_cost exV exfq exsc [] 2 exPn2 exw2 == 0)%Q.
+Proof. exact ex_c07_st. Qed.
+Print Assumptions C07_node_additional_start_lowers_the_optimum.
+
 (* ---- audit additions (agent-c19): instances of the hypotheses the Example above does not reach ---- *)
 From Coq Require Import Lqa.
 From FP Require ErrEncProofs ErrEncProofs2 ErrEncComplete ErrEncOptimal.
